@@ -101,17 +101,18 @@ theorem action_then_walk {is : List Instr} {dl : Bool} {mr : Nat} {data : List N
 
 /-- **C03 (whole pipeline).** Whatever the font – any number of passes, any state tables, rules, constraint and action
 programs – and whatever the text: a segment returned by the modelled pipeline (`read_text`, substitution passes,
-`associateChars`, positioning passes) exposes a well-formed stream: following `next` from `first` visits `numGlyphs` distinct
+`associateChars`, positioning passes; `dir` the direction asked for, `font.silfDir` the font's, every pass finding the stream
+in the direction it wants – `Segment::reverseSlots`) exposes a well-formed stream: following `next` from `first` visits `numGlyphs` distinct
 slots and ends at `last`, and `prev` is the exact inverse of `next`. -/
-theorem shape_stream_wf (font : Pass.Font) (text : List Nat) (fuel : Nat) {c : Ctx} {ci : List Assoc.CI}
-    (e : Pass.shape font text fuel = .ok (some (c, ci))) :
+theorem shape_stream_wf (font : Pass.Font) (text : List Nat) (fuel : Nat) (dir : Nat) {c : Ctx} {ci : List Assoc.CI}
+    (e : Pass.shape font text fuel dir = .ok (some (c, ci))) :
     ∃ l, walk c.seg (l.length + 1) c.seg.first = l ∧ l.Nodup ∧ (l.length : Int) = c.seg.numGlyphs ∧ c.seg.last = l.getLast? ∧
       (∀ a b x y, l = a ++ x :: y :: b → (c.seg.get x).next = some y ∧ (c.seg.get y).prev = some x) ∧
       (∀ x, l.head? = some x → (c.seg.get x).prev = none) ∧ (∀ x, l.getLast? = some x → (c.seg.get x).next = none) ∧
       (∀ x ∈ l, (c.seg.get x).deleted = false ∧ (c.seg.get x).copied = false) ∧
       -- and no slot is lost: every slot in use that is neither marked deleted nor a temporary copy is in the stream
       (∀ j, j < c.seg.slots.size → j ∉ c.seg.free → (c.seg.get j).copied = false → (c.seg.get j).deleted = false → j ∈ l) := by
-  obtain ⟨l, h1, h2, h3⟩ := Pass.shape_wf font text fuel e
+  obtain ⟨l, h1, h2, h3⟩ := Pass.shape_wf font text fuel dir e
   have := stream_walk h1 h2
   exact ⟨l, this.1, this.2.1, this.2.2.1, this.2.2.2.1, this.2.2.2.2.1, this.2.2.2.2.2.1, this.2.2.2.2.2.2, h2.live, h3⟩
 
@@ -128,7 +129,24 @@ def exGids (r : Except String (Option (Ctx × List Assoc.CI))) : List Nat :=
 example : exGids (shape (exFont [31, 59, 0, 7, 25, 25, 49]) [3, 4, 3] 50) = [0, 3, 4, 0, 3] := by decide +kernel
 /-- glyph 3 is deleted: `delete; next; ret_zero` -/
 example : exGids (shape (exFont [32, 25, 49]) [3, 4, 3] 50) = [4] := by decide +kernel
+/-- the same text asked for right to left (the stream is turned round for the left-to-right font's pass): the pass sees and
+leaves the reversed stream -/
+example : exGids (shape (exFont [32, 25, 49]) [3, 4, 5, 3] 50 1) = [5, 4] := by decide +kernel
 end examples
+
+/-- **`Segment::reverseSlots`** (in front of a pass that runs in the other direction, inside `positionSlots`, at the end of
+`finalise`): the reversed stream is a well-formed doubly linked list of the same slots – in an order that is a permutation of
+the old one – with the same flags, free list and allocation invariant -/
+theorem reversal_keeps_stream {s : Seg} {l : List Nat} (hl : Linked s l) (hc : Clean s l) (ha : Alloc s l) (mark : Nat → Bool) :
+    ∃ l', l'.Perm l ∧ Linked (s.reverseSlots mark) l' ∧ Clean (s.reverseSlots mark) l' ∧ Alloc (s.reverseSlots mark) l' :=
+  Pass.reverseSlots_wf hl hc ha mark
+
+/-- … and it touches nothing but `next`, `prev`, `first`, `last` and the direction flag -/
+theorem reversal_touches_links_only (s : Seg) (mark : Nat → Bool) : Pass.RevSame s (s.reverseSlots mark) := Pass.reverseSlots_same s mark
+
+/-- the order `reverseSlots` produces: leading marks stay, the groups "base + its marks" come out in reverse order
+(slots 7 and 8 are marks) -/
+example : Pass.revOrder (fun i => i == 7 || i == 8) [7, 1, 8, 2, 3, 8] = [7, 3, 8, 2, 1, 8] := by decide
 
 /-- every run of passes, from any well-formed segment (exported for the audit) -/
 theorem passes_keep_stream (passes : Array Pass.PassT) (c : Ctx) (lo hi fuel : Nat) (h : Pass.WF c.seg) {c' : Ctx}
